@@ -28,6 +28,7 @@ import (
 var (
 	errDeadlock    = errors.New("c01pipe: deadlock (every goroutine of the case is blocked)")
 	errWriteClosed = errors.New("c01pipe: write after CloseWrite")
+	errRunaway     = errors.New("c01pipe: transport budget exceeded (runaway loop: far more traffic than any case needs)")
 )
 
 type world struct {
@@ -152,6 +153,14 @@ type half struct {
 
 const wlogMax = 40
 
+// No case needs more than ~0.6 MB of wire traffic per direction or more than
+// that many one-byte reads; these budgets turn runaway loops in the code under
+// test into a deterministic error instead of a hang.
+const (
+	maxTransportOps   = 4 << 20
+	maxTransportBytes = 16 << 20
+)
+
 func (h *half) nextBoundary() int64 {
 	nb := int64(1) << 62
 	for h.ci < len(h.cuts) && h.cuts[h.ci] <= h.roff {
@@ -179,6 +188,9 @@ func (h *half) write(b []byte) (int, error) {
 	defer h.w.mu.Unlock()
 	if h.wclose {
 		return 0, errWriteClosed
+	}
+	if h.nwrites > maxTransportOps || h.pre > maxTransportBytes {
+		return 0, errRunaway
 	}
 	total := len(b)
 	data := b
@@ -229,6 +241,9 @@ func (h *half) read(p []byte) (int, error) {
 	}
 	h.w.mu.Lock()
 	defer h.w.mu.Unlock()
+	if h.nreads > maxTransportOps {
+		return 0, errRunaway
+	}
 	if !h.w.wait(func() bool { return len(h.q) > 0 || h.wclose }) {
 		return 0, errDeadlock
 	}
